@@ -262,14 +262,14 @@ func PrunePathValues(paths []*configapi.PathValue, leaveTopDeletedPaths bool) []
 
 	// Order the paths to be pruned lexicographically (and shortest to longest) to make subsequent pruning easier
 	sort.Slice(sortedPaths, func(i, j int) bool {
-		return sortedPaths[i].Path < sortedPaths[j].Path
+		return pathSortKey.Replace(sortedPaths[i].Path) < pathSortKey.Replace(sortedPaths[j].Path)
 	})
 
 	prunedPaths := make([]*configapi.PathValue, 0, len(sortedPaths))
 	deletingPrefix := ""
 	for _, pv := range sortedPaths {
 		// If this path is marked as deleted and we're already not deleting this subtree, start deleting
-		if pv.Deleted && (len(deletingPrefix) == 0 || !strings.HasPrefix(pv.Path, deletingPrefix)) {
+		if pv.Deleted && (len(deletingPrefix) == 0 || !isSameOrChildPath(pv.Path, deletingPrefix)) {
 			deletingPrefix = pv.Path
 
 			// If we're asked to leave behind the top deleted node of a sub-tree, add it here
@@ -280,13 +280,25 @@ func PrunePathValues(paths []*configapi.PathValue, leaveTopDeletedPaths bool) []
 
 		// If we're not currently deleting or if the node is not part of the sub-tree, add it and cancel deletion
 		// since we have left the sub-tree.
-		if len(deletingPrefix) == 0 || !strings.HasPrefix(pv.Path, deletingPrefix) {
+		if len(deletingPrefix) == 0 || !isSameOrChildPath(pv.Path, deletingPrefix) {
 			prunedPaths = append(prunedPaths, pv)
 			deletingPrefix = ""
 		}
 	}
 
 	return prunedPaths
+}
+
+// pathSortKey orders paths so that the descendants of a path (which continue with '/' or '[') directly follow it,
+// ahead of siblings whose names merely extend its text (e.g. /a/b, /a/b/c, /a/b[k=1]/d, /a/b2)
+var pathSortKey = strings.NewReplacer(slash, "\x00", bracketsq, "\x01")
+
+// isSameOrChildPath tells whether path is parent itself or lies beneath it at a path element boundary
+func isSameOrChildPath(path string, parent string) bool {
+	if !strings.HasPrefix(path, parent) {
+		return false
+	}
+	return len(path) == len(parent) || path[len(parent)] == slash[0] || path[len(parent)] == bracketsq[0]
 }
 
 // PrunePathMap produces a copy of the given path values map, with paths marked as deleted and their sub-paths removed.
